@@ -24,8 +24,10 @@
       fails exactly on conflict
           fails_iff_conflict_partial ("conflict => failure", flat); fails_iff_conflict_refuted (general, other direction)
     The model follows the repaired aggregator (repository commits 874f221 and 0bf540d: nested instance exports are merged
-    recursively; an aliased primitive is not recorded as replacement of the primitive).  The witnesses that refuted the
-    general statements before the repairs are kept as regression Examples ([repaired_witnesses]).
+    recursively; an aliased primitive is not recorded as replacement of the primitive; and the repair of known finding
+    nested-interface-with-two-parents: an interface without an identifier is copied once per mention instead of being
+    shared through the remap table).  The witnesses that refuted the general statements before the repairs are kept as
+    regression Examples ([repaired_witnesses], [repaired_shared_child]).
     Not proved: "failure only on conflict" and "success is order independent" for flat histories (need completeness of the
     checker at the given fuel and panic-freedom of the copy); anything about `use`d types and resources beyond the model
     itself (their behaviour is covered by the correspondence and the executable specification only). *)
@@ -327,18 +329,22 @@ Qed.
 (** * 4. NESTED instance requirements (instance exports below instance exports; repository commit 0bf540d)
 
     Scope of this section ([nested_contrib Col c], proofs/AggregatorNestedDen.v, AggregatorNestedHistory.v): the contribution is
-    [KInstance i] and [i] is the root of a TREE of interfaces of its collection: no `use`s, pairwise different export
+    [KInstance i] and [i] is the root of a nest of interfaces of its collection: no `use`s, pairwise different export
     names, every export is a leaf (function, value, value type with a resource-free tree) or again an instance whose
-    interface is ANONYMOUS and has exactly this one parent ([IDen]/[shaped]); the root has no identifier or the import
-    name as identifier; no owned resource aliases.  [once Col l]: no interface is reached from two contributions of the
-    history (automatic for contributors from pairwise different collections: [once_of_distinct_collections]).
-    The executable form of the hypothesis is [ncontrib_b] ([nested_contrib_decidable]).
+    interface is ANONYMOUS ([SIDen]); the root has no identifier or the import name as identifier; no owned resource
+    aliases.  Nothing is assumed about SHARING: one anonymous interface may be mentioned under several exports of one
+    contribution, by several contributions, under several import names, and one contribution may occur several times in
+    a history (before the repair of known finding nested-interface-with-two-parents every nested interface had to have
+    exactly one parent and no interface could be reached from two contributions - hypotheses [shaped] on the contributor and
+    [once]/[apart] on the history, both gone).  The executable form of the hypothesis is [ncontrib_b]
+    ([nested_contrib_decidable]).
 
     Invariant [NestInv Col tag0 a s done] (the tree-shaped generalisation of [HInv]):
       - the names bookkeeping [NInv] and the remap/memo invariant [MInv] as before;
-      - OWNERSHIP: every import is the root of such a tree in the aggregator's collection and the trees of different
-        imports share no interface (inside one tree no interface has two parents: [shaped]); hence a merge below one
-        import leaves every other import alone ([MFrame]);
+      - OWNERSHIP: every import is the root of a TREE in the aggregator's collection ([IDen]: inside one tree no interface has
+        two parents, [shaped] - the aggregator copies an anonymous interface once per mention) and the trees of different
+        imports share no interface; hence a merge below one import, or below one export, leaves every other one alone
+        ([MFrame]): nothing asked of one name leaks into another;
       - SEMANTICS: the tree of import [n] is the left-to-right [tmerge] (spec/AggregatorSpec.v: recursive first-seen union,
         equal leaves) of the trees of the contributions whose canonical name is [n], in arrival order ([MergedOf]).
     The link model -> specification is [ML_all] (proofs/AggregatorNestedMerge.v): a successful [merge_interface] of a
@@ -346,17 +352,16 @@ Qed.
     statements are about successful aggregations; [deep_run] shows that fuel 60 suffices for a depth-3 history, and
     results other than out-of-fuel do not depend on the fuel).
     NOT covered: nested interfaces WITH an identifier (they are unified through the interface table: refuted below),
-    interfaces with two parents (refuted below), `use`d types, resources, components. *)
+    `use`d types, resources, components. *)
 From WacV Require Import AggregatorNestedSpec AggregatorNestedDen AggregatorNestedMerge AggregatorNestedHistory
      AggregatorNestedTheorems AggregatorNestedWitness.
 
-(** [NestInv] holds initially and after every successful aggregation of a nested contribution that shares no interface
-    with the contributions aggregated before. *)
+(** [NestInv] holds initially and after every successful aggregation of a nested contribution. *)
 Theorem nested_history_invariant : forall ord cf fuel (Col : types -> Prop) tag0,
   (forall l x, In x (ord l) -> In x l) ->
   (forall t1 t2, Col t1 -> Col t2 -> t_tag t1 = t_tag t2 -> t1 = t2) -> (forall t, Col t -> t_tag t <> tag0) ->
   NestInv Col tag0 (agg0 tag0) st0 [] /\
-  forall a s done c a' s', NestInv Col tag0 a s done -> nested_contrib Col c -> (forall c0, In c0 done -> apart Col c c0) ->
+  forall a s done c a' s', NestInv Col tag0 a s done -> nested_contrib Col c ->
     aggregate ord cf fuel a s (fst c) (fst (snd c)) (snd (snd c)) = AOk (a', s') -> NestInv Col tag0 a' s' (c :: done).
 Proof.
   intros ord cf fuel Col tag0 Ho Hs Ht. split; [exact (NestInv_nil Col tag0)|].
@@ -368,7 +373,7 @@ Print Assumptions nested_history_invariant.
 Theorem merge_upper_bound_nested_partial : forall ord cf fuel (Col : types -> Prop) tag0,
   (forall l x, In x (ord l) -> In x l) ->
   (forall t1 t2, Col t1 -> Col t2 -> t_tag t1 = t_tag t2 -> t1 = t2) -> (forall t, Col t -> t_tag t <> tag0) ->
-  forall l a s, Forall (nested_contrib Col) l -> once Col l -> history_ok ord cf fuel tag0 l a s ->
+  forall l a s, Forall (nested_contrib Col) l -> history_ok ord cf fuel tag0 l a s ->
   forall c, In c l -> forall tr, UnfK (fst (snd c)) (snd (snd c)) tr ->
     exists merged tm, assoc (Aggregator.canonical a (fst c)) (imports a) = Some merged /\
                       UnfK (a_types a) merged tm /\ SubCM tm tr.
@@ -378,11 +383,14 @@ Print Assumptions merge_upper_bound_nested_partial.
 (** [instance_merge_is_union], recursively: one successful aggregation of a nested requirement (tree [tb]) into the import
     that carries its name (exact, or the semver-compatible one; tree [ta]) leaves that import with the specification's
     [tmerge ta tb]: the export names are the first-seen union, an export only one side has keeps its tree, an export both
-    have is their [tmerge] - and so on below every nested instance. *)
+    have is their [tmerge] - and so on below every nested instance.  In particular (known finding
+    nested-interface-with-two-parents, repaired) an export that only the import has keeps its tree even when the interface
+    behind it was, in its contributor's collection, the same interface as one that is merged now: what is asked of one
+    export does not leak into another. *)
 Theorem instance_merge_is_union_nested_partial : forall ord cf fuel (Col : types -> Prop) tag0,
   (forall t1 t2, Col t1 -> Col t2 -> t_tag t1 = t_tag t2 -> t1 = t2) -> (forall t, Col t -> t_tag t <> tag0) ->
   forall a s done c a' s' y,
-  NestInv Col tag0 a s done -> nested_contrib Col c -> (forall c0, In c0 done -> apart Col c c0) ->
+  NestInv Col tag0 a s done -> nested_contrib Col c ->
   (assoc (fst c) (a_imports a) = Some (KInstance y) \/
    (assoc (fst c) (a_imports a) = None /\ exists en, find_compat (fst c) (a_imports a) = Some (en, KInstance y))) ->
   aggregate ord cf fuel a s (fst c) (fst (snd c)) (snd (snd c)) = AOk (a', s') ->
@@ -405,7 +413,7 @@ Print Assumptions instance_merge_is_union_nested_partial.
 Theorem aggregate_idempotent_nested_partial : forall ord cf fuel (Col : types -> Prop) tag0,
   (forall t1 t2, Col t1 -> Col t2 -> t_tag t1 = t_tag t2 -> t1 = t2) -> (forall t, Col t -> t_tag t <> tag0) ->
   forall a s done c a' s' y,
-  NestInv Col tag0 a s done -> nested_contrib Col c -> (forall c0, In c0 done -> apart Col c c0) ->
+  NestInv Col tag0 a s done -> nested_contrib Col c ->
   (assoc (fst c) (a_imports a) = Some (KInstance y) \/
    (assoc (fst c) (a_imports a) = None /\ exists en, find_compat (fst c) (a_imports a) = Some (en, KInstance y))) ->
   aggregate ord cf fuel a s (fst c) (fst (snd c)) (snd (snd c)) = AOk (a', s') ->
@@ -417,17 +425,18 @@ Print Assumptions aggregate_idempotent_nested_partial.
 (** [fails_iff_conflict], direction "a conflict makes the aggregation fail": if the specification has no merge of the
     import's tree and the requirement ([tmerge] = None: somewhere below, a same-named export is a leaf on one side and an
     instance on the other, or two different leaves) the aggregation does not succeed; and in a successful history any two
-    contributions of one track are mergeable.  (The converse direction is refuted below and in section 3.) *)
+    contributions of one track are mergeable.  (The converse direction is refuted in section 3 for interfaces with
+    identifiers; for nested contributions it needs the completeness/totality development mentioned in section 3.) *)
 Theorem fails_iff_conflict_nested_partial : forall ord cf fuel (Col : types -> Prop) tag0,
   (forall l x, In x (ord l) -> In x l) ->
   (forall t1 t2, Col t1 -> Col t2 -> t_tag t1 = t_tag t2 -> t1 = t2) -> (forall t, Col t -> t_tag t <> tag0) ->
   (forall a s done c y,
-    NestInv Col tag0 a s done -> nested_contrib Col c -> (forall c0, In c0 done -> apart Col c c0) ->
+    NestInv Col tag0 a s done -> nested_contrib Col c ->
     (assoc (fst c) (a_imports a) = Some (KInstance y) \/
      (assoc (fst c) (a_imports a) = None /\ exists en, find_compat (fst c) (a_imports a) = Some (en, KInstance y))) ->
     forall ta tb, UnfK (a_types a) (KInstance y) ta -> UnfK (fst (snd c)) (snd (snd c)) tb -> tmerge ta tb = None ->
       forall r, aggregate ord cf fuel a s (fst c) (fst (snd c)) (snd (snd c)) <> AOk r) /\
-  (forall l a s, Forall (nested_contrib Col) l -> once Col l -> history_ok ord cf fuel tag0 l a s ->
+  (forall l a s, Forall (nested_contrib Col) l -> history_ok ord cf fuel tag0 l a s ->
     forall c1 c2, In c1 l -> In c2 l -> compat_spec_b (fst c1) (fst c2) = true ->
     forall tr1 tr2, UnfK (fst (snd c1)) (snd (snd c1)) tr1 -> UnfK (fst (snd c2)) (snd (snd c2)) tr2 ->
       exists tm, tmerge tr1 tr2 = Some tm).
@@ -444,7 +453,7 @@ Print Assumptions fails_iff_conflict_nested_partial.
 Theorem aggregate_order_indep_nested_partial : forall ord cf fuel (Col : types -> Prop) tag0,
   (forall l x, In x (ord l) -> In x l) ->
   (forall t1 t2, Col t1 -> Col t2 -> t_tag t1 = t_tag t2 -> t1 = t2) -> (forall t, Col t -> t_tag t <> tag0) ->
-  forall l l' a s a' s', Forall (nested_contrib Col) l -> once Col l -> once Col l' -> Permutation l l' ->
+  forall l l' a s a' s', Forall (nested_contrib Col) l -> Permutation l l' ->
   history_ok ord cf fuel tag0 l a s -> history_ok ord cf fuel tag0 l' a' s' ->
   forall n, In n (map fst l) ->
     Aggregator.canonical a n = Aggregator.canonical a' n /\
@@ -470,48 +479,50 @@ Proof.
 Qed.
 Print Assumptions tmerge_is_meet.
 
-(** the hypotheses are decidable ([ncontrib_b G d c]: fuel [G] for the leaves, depth [d]) and contributors from pairwise
-    different collections are always [once] *)
+(** the hypothesis is decidable ([ncontrib_b G d c]: fuel [G] for the leaves, depth [d]; it does not look at how the
+    interfaces are shared) *)
 Theorem nested_contrib_decidable : forall (Col : types -> Prop) G d c,
   Col (fst (snd c)) -> owner_free (fst (snd c)) -> ncontrib_b G d c = true -> nested_contrib Col c.
 Proof. exact ncontrib_b_sound. Qed.
 Print Assumptions nested_contrib_decidable.
-Theorem once_of_distinct_collections : forall (Col : types -> Prop) (l : list (str * (types * kind))),
-  NoDup (map (fun c : str * (types * kind) => t_tag (fst (snd c))) l) -> once Col l.
-Proof. exact once_tags. Qed.
-Print Assumptions once_of_distinct_collections.
 
-(** Full statements (no tree-shape hypothesis): FALSE of the faithful model.
-    (a) An interface with two parents INSIDE one contributor - foo: {n: I, m: I}, I = {f}, then foo: {n: {g}}: the copy of
-    I is shared, the merge below [n] enlarges [m] as well, the merged requirement is strictly more demanding than the
-    union ([tmerge ta tb] does not satisfy it) although every contributor is satisfied.  The first contribution is exactly
-    what [ncontrib_b] rejects.  Replayed on the real aggregator: same trees (proposed finding
-    nested-interface-with-two-parents).  Restored by [shaped] (every nested interface has one parent). *)
-Theorem instance_merge_is_union_nested_refuted :
-  exists l a s tm ta tb tu, run l = inl (a, s) /\ length l = 2%nat /\ merged_tree a [102;111;111] = Some tm /\
-    req_tree (nth 0 l dflt) = Some ta /\ req_tree (nth 1 l dflt) = Some tb /\ tmerge ta tb = Some tu /\
-    ~ SubCM tu tm /\ SubCM tm ta /\ SubCM tm tb /\
-    ncontrib_b 4 3 (nth 0 l dflt) = false /\ ncontrib_b 4 3 (nth 1 l dflt) = true.
+(** Regression (known finding nested-interface-with-two-parents, repaired; before the repair these two histories refuted
+    [instance_merge_is_union] and [fails_iff_conflict] for nested requirements).
+    (a) An interface with two parents INSIDE one contributor - foo: {n: I, m: I}, I = {f}, then foo: {n: {g}}: every mention of
+    I is copied, the merge below [n] leaves [m] alone, the merged requirement IS the union [tmerge ta tb] =
+    {n: {f, g}, m: {f}}.  Both contributions are nested contributions.
+    (b) ... and with a third contribution {m: {g: func(x: u8)}}, which conflicts with nothing anybody required, the history
+    succeeds in the order 1,2,3 as well as in the order 2,3,1, with the specification's merged tree.
+    The theorems above apply to these histories ([w_dag3_nested]); the same case lines are replayed on the real aggregator
+    from corpus/C09/cases.txt. *)
+Example repaired_shared_child :
+  (exists a s tm ta tb, run w_dag = inl (a, s) /\ merged_tree a [102;111;111] = Some tm /\
+     req_tree (nth 0 w_dag dflt) = Some ta /\ req_tree (nth 1 w_dag dflt) = Some tb /\ tmerge ta tb = Some tm /\
+     tm = XInst [([110], XInst [([102], XFunc (mkft [] None false)); ([103], XFunc (mkft [] None false))]);
+                 ([109], XInst [([102], XFunc (mkft [] None false))])] /\
+     SubCM tm ta /\ SubCM tm tb /\
+     ncontrib_b 4 3 (nth 0 w_dag dflt) = true /\ ncontrib_b 4 3 (nth 1 w_dag dflt) = true) /\
+  (exists l' a s a' s' ta tb tc tab tabc, Permutation w_dag3 l' /\ run w_dag3 = inl (a, s) /\ run l' = inl (a', s') /\
+     req_tree (nth 0 w_dag3 dflt) = Some ta /\ req_tree (nth 1 w_dag3 dflt) = Some tb /\ req_tree (nth 2 w_dag3 dflt) = Some tc /\
+     tmerge ta tb = Some tab /\ tmerge tab tc = Some tabc /\ merged_tree a [102;111;111] = Some tabc /\
+     exists t', merged_tree a' [102;111;111] = Some t' /\ SubCM t' tabc /\ SubCM tabc t') /\
+  Forall (nested_contrib dag_col) w_dag3 /\
+  (forall t1 t2, dag_col t1 -> dag_col t2 -> t_tag t1 = t_tag t2 -> t1 = t2) /\ (forall t, dag_col t -> t_tag t <> 0).
 Proof.
-  destruct shared_child_not_union as [l [a [s [tm [ta [tb [tu [H1 [H2 [H3 [H4 [H5 [H6 [H7 [H8 [H9 [H10 H11]]]]]]]]]]]]]]]]].
-  exists l, a, s, tm, ta, tb, tu. refine (conj H1 (conj H2 (conj H3 (conj H4 (conj H5 (conj H6 (conj _ (conj _ (conj _ (conj H10 H11)))))))))).
-  - intro X. apply sub_b_iff in X. congruence.
-  - now apply sub_b_iff.
-  - now apply sub_b_iff.
+  split; [|split; [|exact (conj w_dag3_nested (conj dag_col_same dag_col_tag))]].
+  - destruct shared_child_now_union as [a [s [tm [ta [tb [H1 [H2 [H3 [H4 [H5 [H6 [H7 [H8 [H9 H10]]]]]]]]]]]]]].
+    exists a, s, tm, ta, tb. refine (conj H1 (conj H2 (conj H3 (conj H4 (conj H5 (conj H6 (conj _ (conj _ (conj H9 H10))))))))).
+    + now apply sub_b_iff.
+    + now apply sub_b_iff.
+  - destruct shared_child_order_independent
+      as [l' [a [s [a' [s' [ta [tb [tc [tab [tabc [P [H1 [H2 [H3 [H4 [H5 [H6 [H7 [H8 [t' [H9 [H10 H11]]]]]]]]]]]]]]]]]]]]]].
+    exists l', a, s, a', s', ta, tb, tc, tab, tabc.
+    refine (conj P (conj H1 (conj H2 (conj H3 (conj H4 (conj H5 (conj H6 (conj H7 (conj H8 _))))))))).
+    exists t'. refine (conj H9 (conj _ _)); now apply sub_b_iff.
 Qed.
-Print Assumptions instance_merge_is_union_nested_refuted.
 
-(** (b) ... and with a third contribution {m: {g: func(x: u8)}}, which conflicts with nothing anybody required (the
-    specification merges all three), the history fails in the order 1,2,3 and succeeds in the order 2,3,1. *)
-Theorem fails_iff_conflict_nested_refuted :
-  exists l l' p e a s ta tb tc tab tabc, Permutation l l' /\ run l = inr (p, AErr e) /\ run l' = inl (a, s) /\
-    length l = 3%nat /\
-    req_tree (nth 0 l dflt) = Some ta /\ req_tree (nth 1 l dflt) = Some tb /\ req_tree (nth 2 l dflt) = Some tc /\
-    tmerge ta tb = Some tab /\ tmerge tab tc = Some tabc.
-Proof. exact shared_child_fails_without_conflict. Qed.
-Print Assumptions fails_iff_conflict_nested_refuted.
-
-(** (c) Sharing through the interface table: a nested interface WITH an identifier is unified with the interface of that
+(** Full statements (nested interfaces WITH an identifier): FALSE of the faithful model. *)
+(** Sharing through the interface table: a nested interface WITH an identifier is unified with the interface of that
     identifier already registered - foo: {n: d{f}}, bar: {n: d{g}} on different tracks: afterwards foo requires [g] below
     [n] (merged foo is not satisfied by foo's only contributor's own tree; the contributor is satisfied by merged).
     Known finding interface-id-under-two-import-names, nested form.  Restored by anonymous nested interfaces ([IDen]). *)
@@ -529,12 +540,12 @@ Print Assumptions nested_interface_table_refuted.
 (** Non-vacuity of the nested theorems: three versions of one track, interfaces named by their import names, two levels
     of nesting, overlapping and disjoint nested exports; the merged tree equals the executable specification [spec_merge]. *)
 Example nested_nonvacuous :
-  Forall (nested_contrib deep_col) w_deep /\ once deep_col w_deep /\
+  Forall (nested_contrib deep_col) w_deep /\
   (forall t1 t2, deep_col t1 -> deep_col t2 -> t_tag t1 = t_tag t2 -> t1 = t2) /\ (forall t, deep_col t -> t_tag t <> 0) /\
   exists a s tm, run w_deep = inl (a, s) /\ map fst (imports a) = [n_023] /\ merged_tree a n_021 = Some tm /\
                  spec_merge (map (fun c => (fst c, match req_tree c with Some t => t | None => XInst [] end)) w_deep) = Some [(n_023, tm)].
 Proof.
-  refine (conj w_deep_nested (conj w_deep_once (conj deep_col_same (conj deep_col_tag _)))).
+  refine (conj w_deep_nested (conj deep_col_same (conj deep_col_tag _))).
   eexists _, _, _. split; [vm_compute; reflexivity|]. split; [vm_compute; reflexivity|]. split; vm_compute; reflexivity.
 Qed.
 
@@ -543,7 +554,7 @@ Qed.
     The recursion of the Rust code over nested instance exports ([merge_interface] <-> [remap_interface]) is on explicit fuel
     in the model.  (a) Fuel is only a bound: every outcome other than "out of fuel" - success with its final state, or the
     position and class of the first failure - is the same for every larger fuel.  (b) The fuel the NESTED recursion needs is
-    bounded by the depth [d] of the contributor's tree: with fuel >= 2*d + L + 2 a merge (2*d + L: a copy) can only run out
+    bounded by the depth [d] of the contributor's requirement ([SDen]/[SIDen]: interfaces may be shared): with fuel >= 2*d + L + 2 a merge (2*d + L: a copy) can only run out
     of fuel because a LEAF (function, value, value type) of the contributor could not be copied with fuel >= L, or
     because the SubtypeChecker (its fuel [cf] is a separate parameter) answered OutOfFuel - in whatever state the
     aggregator is.  The leaf copies are bounded as well ([nested_fuel_suffices]); NOT proved: a bound for the checker's own
@@ -564,9 +575,9 @@ Qed.
 Print Assumptions aggregate_fuel_monotone.
 
 Theorem nested_fuel_bound : forall ord cf t L d,
-  (forall i oid e ids, IDen d t i oid e ids -> forall F y c, (2 * d + L + 2 <= F)%nat ->
+  (forall i oid e ids, SIDen d t i oid e ids -> forall F y c, (2 * d + L + 2 <= F)%nat ->
      merge_interface ord cf F y t i c = AOof -> LeafOof ord cf t L \/ ChkOof cf t) /\
-  (forall k tr ids, Den d t k tr ids -> forall F c, (2 * d + L <= F)%nat ->
+  (forall k tr ids, SDen d t k tr ids -> forall F c, (2 * d + L <= F)%nat ->
      remap_item_kind ord cf F t k c = AOof -> LeafOof ord cf t L).
 Proof.
   intros ord cf t L d. split.
@@ -580,8 +591,8 @@ Print Assumptions nested_fuel_bound.
     2*d + 2*g + 2 whatever the state; it is merged with fuel 2*d + 2*g + 4 unless the checker runs out of ITS fuel. *)
 Theorem nested_fuel_suffices : forall ord cf t g d,
   (forall k0 tr0, leaf_den t k0 tr0 -> unfold g t k0 = Some tr0) ->
-  (forall k tr ids, Den d t k tr ids -> forall F c, (2 * d + 2 * g + 2 <= F)%nat -> remap_item_kind ord cf F t k c <> AOof) /\
-  (forall i oid e ids, IDen d t i oid e ids -> forall F y c, (2 * d + 2 * g + 4 <= F)%nat ->
+  (forall k tr ids, SDen d t k tr ids -> forall F c, (2 * d + 2 * g + 2 <= F)%nat -> remap_item_kind ord cf F t k c <> AOof) /\
+  (forall i oid e ids, SIDen d t i oid e ids -> forall F y c, (2 * d + 2 * g + 4 <= F)%nat ->
      merge_interface ord cf F y t i c = AOof -> ChkOof cf t).
 Proof.
   intros ord cf t g d Hg. split.
